@@ -11,7 +11,7 @@ from . import c18
 ID = 'C15'
 WORLD = 'gdb'
 LEVEL = 'exploration'
-RUNS = {'quick': 1600}
+RUNS = {'quick': 9600}
 BUDGET_S = {'thorough': 600}
 RULE = ('one evaluation = one simulated GDB session: a fake inferior with 1-3 connection slots (client and server side) on 1-3 '
         'threads hits serialize_closure / wl_closure_invoke / wl_closure_dispatch / wl_connection_destroy in seeded order, with '
